@@ -844,16 +844,10 @@ class RTDCWriter:
                 else:
                     val = ufunc(dset)
                 dset.attrs[uname] = val
-            # store ufunc data for mean (weighted with size)
-            mean_a = dset.attrs.get("mean", None)
-            if mean_a is not None:
-                num_a = offset
-                mean_b = np.nanmean(data)
-                num_b = data.size
-                mean = (mean_a * num_a + mean_b * num_b) / (num_a + num_b)
-            else:
-                mean = np.nanmean(dset)
-            dset.attrs["mean"] = mean
+            # Store ufunc data for mean. The mean is computed from all data,
+            # because a running mean weighted with the sizes of the appended
+            # arrays is wrong as soon as nan values are involved.
+            dset.attrs["mean"] = np.nanmean(dset)
         else:
             chunk_size = dset.chunks[0]
             # populate higher-dimensional data in chunks
